@@ -152,6 +152,36 @@ bool ops_repl(World &w, const Op &o) {
     destroy_replica(w, ri);
     return true;
   }
+  if (k == "xml_load_cfg") {
+    // C01 over history-built XML sources: the replica's own export (Misc objects, Groups, distances, memattrs, kinds, restricted sets ...) is the
+    // source of a fresh configure -> load history with a seeded filter assignment and flag word; no relation to the exporter is claimed (the
+    // filters differ), only: load returns 0 or -1, and on 0 the topology is well formed
+    int si = w.pick(o.u("r")); if (si < 0) return true; Replica &S = w.r[si];
+    bool tofile = o.u("via") & 1, v2 = (o.u("v2") % 4) == 0; std::string xml, path; int rc;
+    if (!export_xml(w, S, tofile, v2, xml, path, &rc)) { r.ev("xml_load_cfg: export failed rc=%d", rc); if (tofile && !path.empty()) unlink(path.c_str()); return true; }
+    hwloc_topology_t nt = nullptr; hwloc_topology_init(&nt);
+    std::string f = o.s("filt", ""); if (!f.empty() && f[0] == 'f') f.erase(0, 1);
+    for (size_t ty = 0; ty < f.size() && ty < HWLOC_OBJ_TYPE_MAX; ty++) if (f[ty] >= '0' && f[ty] <= '3') hwloc_topology_set_type_filter(nt, (hwloc_obj_type_t)ty, (enum hwloc_type_filter_e)(f[ty] - '0'));
+    unsigned long fl = (unsigned long)o.u("flags") & (HWLOC_TOPOLOGY_FLAG_INCLUDE_DISALLOWED | HWLOC_TOPOLOGY_FLAG_IMPORT_SUPPORT | HWLOC_TOPOLOGY_FLAG_NO_DISTANCES | HWLOC_TOPOLOGY_FLAG_NO_MEMATTRS | HWLOC_TOPOLOGY_FLAG_NO_CPUKINDS | HWLOC_TOPOLOGY_FLAG_DONT_CHANGE_BINDING);
+    hwloc_topology_set_flags(nt, fl);
+    int rc1 = tofile ? hwloc_topology_set_xml(nt, path.c_str()) : hwloc_topology_set_xmlbuffer(nt, xml.c_str(), (int)xml.size() + 1);
+    int rc2 = rc1 == 0 ? hwloc_topology_load(nt) : -1;
+    if (tofile && !path.empty()) unlink(path.c_str());
+    r.ev("xml_load_cfg r%d v2=%d via=%s filt=%s flags=0x%lx -> set %d load %d", si, (int)v2, tofile ? "file" : "buffer", f.c_str(), fl, rc1, rc2);
+    if ((rc1 != 0 && rc1 != -1) || (rc2 != 0 && rc2 != -1)) { hwloc_topology_destroy(nt); viol0(w, "C01", "cfg.return_value", "set_xml returned %d, load returned %d", rc1, rc2); }
+    if (rc2 == 0) {
+      r.count("probe.xml_load_cfg_loaded"); Dump dd; take_dump(nt, dd, DUMP_FULL);
+      r.distinct("state", mix2(hash_str(dd.text()), hash_str("xml_load_cfg")));
+      std::string e = wf_check(nt, dd);
+      // known finding (same defect as C02 ...merged_level_with_offline_cpus@restrict): a KEEP_STRUCTURE level merged at load time on a
+      // topology whose complete_cpusets start below the cpusets
+      if (!e.empty() && e.rfind("wf.hwloc_check:hwloc__check_children_cpusets", 0) == 0) { Dump ds; take_dump(S.t, ds, DUMP_TREE); bool off = false; for (auto &kv : ds.objs) if (kv.second.hassets && !kv.second.cs.empty() && kv.second.ccs.first() < kv.second.cs.first()) off = true;
+        if (off && dd.depth < ds.depth) { hwloc_topology_destroy(nt); viol(w, "C01", e.substr(0, e.find(": ")) + ".merged_level_with_offline_cpus", "topology loaded from a history-built XML export, a level was merged at load: %s", e.c_str()); } }
+      if (!e.empty()) { hwloc_topology_destroy(nt); viol(w, "C01", e.substr(0, e.find(": ")), "topology loaded from a history-built %s XML export with filters %s flags 0x%lx: %s", v2 ? "v2" : "v3", f.c_str(), fl, e.c_str()); }
+    } else r.count("probe.xml_load_cfg_refused");
+    hwloc_topology_destroy(nt);
+    return true;
+  }
   if (k == "xml_restart") {
     int si = w.pick(o.u("r")); if (si < 0) return true; int di = w.free_slot();
     if (di < 0) { r.ev("xml_restart skipped: no free replica slot"); return true; }
